@@ -11,6 +11,8 @@ byte) and loaded with xknx.secure.keyring.sync_load_keyring:
            name / presence / order / nesting, the Signature itself) raises InvalidSecureConfiguration;
  password  near-miss passwords raise InvalidSecureConfiguration;
  real      the same four on the six real exports (expected content via the writer's own reader).
+ long      attribute values beyond 255 octets (>= 37 senders of one group, long project name): the
+           load succeeds with the written content or raises InvalidSecureConfiguration, nothing else.
 """
 
 from __future__ import annotations
@@ -93,7 +95,7 @@ st_ia = st.one_of(u16, st.sampled_from([0x1100, 0x1101, 0x1001, 0xFFFF, 0x0001, 
 st_ga = st.one_of(st.integers(1, 65535), st.sampled_from([1, 2, 3, 0x0901, 0x0400, 65535]))
 b16 = st.binary(min_size=16, max_size=16)
 
-st_group_assign = st.tuples(st.integers(0, 11), st.lists(st_ia, min_size=0, max_size=4, unique=True))
+st_group_assign = st.tuples(st.integers(0, 11), st.one_of(st.lists(st_ia, min_size=0, max_size=4, unique=True), st.none()))
 st_interface = st.fixed_dictionaries(
     {
         "type": st.sampled_from(TYPES),
@@ -152,6 +154,16 @@ st_case = st.fixed_dictionaries(
 )
 
 
+st_long = st.fixed_dictionaries(
+    {
+        "long": st.just(True),
+        "project": st_project,
+        "n_senders": st.one_of(st.just(0), st.integers(37, 70)),
+        "name_len": st.one_of(st.just(0), st.integers(256, 300)),
+    }
+).filter(lambda c: c["n_senders"] or c["name_len"])
+
+
 def resolve(p: dict) -> dict:
     """Strategy output -> writer project (interface groups point into the group pool)."""
     pool = [g[0] for g in p["group_pool"]]
@@ -167,7 +179,7 @@ def resolve(p: dict) -> dict:
             if ga is None or ga in seen:
                 continue
             seen.add(ga)
-            groups.append([ga, list(senders)])
+            groups.append([ga, None if senders is None else list(senders)])
         itfs.append({**{k: itf[k] for k in ("type", "ia", "host", "user_id", "password", "auth", "rand")}, "groups": groups})
     out["interfaces"] = itfs
     return out
@@ -189,7 +201,7 @@ def expected_from_project(p: dict) -> dict:
             {
                 "type": i["type"], "ia": i["ia"], "host": i.get("host"), "user_id": i.get("user_id"),
                 "password": i.get("password"), "auth": i.get("auth"),
-                "groups": {ga: list(s) for ga, s in i.get("groups", [])},
+                "groups": {ga: list(s or []) for ga, s in i.get("groups", [])},
             }
             for i in p.get("interfaces", [])
         ],
@@ -597,6 +609,9 @@ def check_file(ctx, inp: dict, root: kw.El, password: str, exp: dict, perm: int,
 
 
 def oracle(ctx, case: dict) -> None:
+    if case.get("long"):
+        check_long(ctx, case)
+        return
     p = resolve(case["project"]) if "group_pool" in case["project"] else case["project"]
     try:
         root = kw.build_tree(p)
@@ -606,6 +621,39 @@ def oracle(ctx, case: dict) -> None:
     exp = expected_from_project(p)
     nontrivial = bool(p["interfaces"]) and bool(p["groups"])
     check_file(ctx, case, root, p["password"], exp, case["perm"], [tuple(m) for m in case["mutations"]], "generated", {}, nontrivial)
+
+
+def check_long(ctx, case: dict) -> None:
+    """Attribute values beyond 255 octets (e.g. a group with >= 37 secure senders).
+
+    No real export shows how ETS signs those (a one-octet length is all the scheme has; writers that
+    stream the length emit its low octet), so the file is signed that way and the oracle only demands
+    what holds under every reading: the load either succeeds with exactly the written content or
+    raises InvalidSecureConfiguration - never another exception."""
+    p = resolve(case["project"])
+    if case["n_senders"]:
+        senders = [0x1200 + i for i in range(case["n_senders"])]
+        ga = p["groups"][0][0] if p["groups"] else 1
+        if not p["interfaces"]:
+            p["interfaces"] = [{"type": "Tunneling", "ia": 0x1105, "host": 0x1100, "user_id": 2, "password": "pw", "auth": "auth", "rand": bytes(16), "groups": []}]
+        itf = p["interfaces"][0]
+        itf["groups"] = [[ga, senders]] + [g for g in itf["groups"] if g[0] != ga]
+    if case["name_len"]:
+        p["project"] = (p["project"] + "long project name ") * 20
+        p["project"] = p["project"][: case["name_len"]]
+    root = kw.build_tree(p, wrap=True)
+    exp = expected_from_project(p)
+    data = kw.render(root)
+    ctx.case(data, nontrivial=True, cls=["long-attribute", "long:senders" if case["n_senders"] else "long:project-name"],
+             sample={"label": "long", "n_senders": case["n_senders"], "name_len": case["name_len"]})
+    res, val = load(data, p["password"])
+    if res == "exc":
+        ctx.fail(f"C31:long-attribute:exc:{exc_site(val)}", case, "".join(traceback.format_exception_only(type(val), val)))
+    elif res == "ok":
+        ctx.case(None, nontrivial=False, cls="long:loaded")
+        compare(ctx, case, exp, val, "long:load")
+    else:
+        ctx.case(None, nontrivial=False, cls="long:refused-as-invalid")
 
 
 def check_real(ctx, name: str, perm: int, mutations: list, systematic: bool = False) -> None:
@@ -678,6 +726,7 @@ def _shard(ctx, n_cases: int, real_names: list, n_real_mut: int) -> None:
             check_real(ctx, name, 12345 + ctx.shard_seed() % 1000, real_mutations(ctx.shard_seed(), n_real_mut), systematic=True)
         if n_cases:
             hyp_search(ctx, st_case, oracle, n_cases)
+            hyp_search(ctx, st_long, oracle, max(2, n_cases // 3), seed_salt=5)
     finally:
         restore_patches(saved)
         cleanup()
@@ -688,7 +737,7 @@ def run(ctx) -> None:
     names = list(kw.REAL_FILES)
     jobs = []
     for i in range(shards):
-        jobs.append((ctx.n(6, 70), [names[i % len(names)]] if i < (len(names) if ctx.quick else 4 * len(names)) else [], ctx.n(40, 200)))
+        jobs.append((ctx.n(6, 40), [names[i % len(names)]] if i < (len(names) if ctx.quick else 4 * len(names)) else [], ctx.n(40, 200)))
     gc.collect()
     gc.freeze()
     try:
@@ -723,6 +772,8 @@ def replay(ctx, case) -> None:
     try:
         if "real" in case:
             check_real(ctx, case["real"], int(case.get("perm", 1)), [tuple(m) for m in case.get("mutations", [])])
+        elif case.get("long"):
+            check_long(ctx, case)
         elif "project" in case:
             oracle(ctx, {"project": case["project"], "perm": int(case.get("perm", 1)), "mutations": case.get("mutations", [])})
     finally:
